@@ -1,6 +1,7 @@
 /* Driver for C12 (dispatch_time arithmetic).
  *
- * Calls the REAL dispatch_time / dispatch_walltime / _dispatch_timeout of the statically
+ * Calls the REAL dispatch_time / dispatch_walltime / _dispatch_timeout /
+ * _dispatch_time_nanoseconds_since_epoch of the statically
  * linked library with `now` under control: this executable defines clock_gettime(), so the
  * library's _dispatch_uptime() (CLOCK_MONOTONIC), _dispatch_monotonic_time()
  * (CLOCK_BOOTTIME) and _dispatch_get_nanoseconds() (CLOCK_REALTIME) read the values the
@@ -14,13 +15,24 @@
  *            rows, Apalache counterexamples) are replayed on the real code; the W=64
  *            oracle must agree with the expectation they carry (exit 4 otherwise);
  *   random   the spec's laws evaluated on seeded random 64-bit inputs biased to the
- *            encoding landmarks.
+ *            encoding landmarks;
+ *   semwait  end to end on the real primitive, real clocks: dispatch_semaphore_wait(sema, t)
+ *            on a semaphore of value 0, t already past / 50 ms ahead on each of the three
+ *            clocks, must time out, not early, and within SEMWAIT_BOUND_S seconds (the
+ *            failing history of a wrong deadline conversion; on POSIX semaphores the deadline
+ *            is _dispatch_time_nanoseconds_since_epoch(t)).
  * Output: one JSON object on stdout.  Exit 0 = no violation, 2 = violation(s),
  * 3 = harness broken (interposition ineffective, bad input), 4 = oracle != spec. */
 #define _GNU_SOURCE
 #include "internal.h"
+/* DISPATCH_MONOTONICTIME_NOW: private/time_private.h (not pulled in by internal.h when the
+ * library itself is being built) */
+#define __DISPATCH_INDIRECT__
+#include "time_private.h"
+#undef __DISPATCH_INDIRECT__
 #include <inttypes.h>
 #include <sys/syscall.h>
+#include <pthread.h>
 
 typedef __int128 I;
 
@@ -72,14 +84,21 @@ static uint64_t real_timeout(uint64_t when, const now_t *n)
 	g_fake = 0; return r;
 }
 
+static uint64_t real_epoch(uint64_t when, const now_t *n)
+{
+	set_now(n); g_fake = 1;
+	uint64_t r = _dispatch_time_nanoseconds_since_epoch(when);
+	g_fake = 0; return r;
+}
+
 /* ------------------------------------------------- transcription of spec/Time.tla */
 typedef struct { int W; I NPS, M, H, Q, MAXV, FOREVER, WALLNOW, MONONOW, SMIN, SMAX; } par_t;
 enum { UP = 0, MONO = 1, WALL = 2 };
 enum { EXACT = 0, FOREVER_K = 1, ELAPSED = 2 };
-enum { FX_ENC = 1, FX_WUF = 2, FX_WTR = 4, FX_ALL = 7 };
+enum { FX_ENC = 1, FX_WUF = 2, FX_WTR = 4, FX_EPC = 8, FX_ALL = 15 };
 static const char *CLASS_NAMES[] = { "", "dt_sum_eq_max", "dt_wall_sum_eq_1", "wt_int64_overflow",
-	"wt_unsaturated", "wt_past_nonneg_delta" };
-#define NCLASS 6
+	"wt_unsaturated", "wt_past_nonneg_delta", "epoch_mono" };
+#define NCLASS 7
 
 static par_t mkpar(int W, I nps)
 {
@@ -172,6 +191,12 @@ static I TimeoutM(const par_t *p, I when, const now_t *now)
 	I n = d.clock == WALL ? now->wall : d.clock == UP ? now->up : now->mono;
 	return n >= d.value ? 0 : d.value - n;
 }
+static I NanosSinceEpochF(const par_t *p, int F, I when, const now_t *now)
+{
+	if (when == p->FOREVER) return p->FOREVER;
+	if ((F & FX_EPC) ? (S(p, when) < 0 && BitQ(p, when)) : S(p, when) < 0) return U(p, -S(p, when));
+	return U(p, now->wall + TimeoutM(p, when, now));
+}
 
 /* PART 2 -- the reference */
 typedef struct { int kind, clock; I t; } ref_t;
@@ -220,6 +245,14 @@ static I RefWait(const par_t *p, I r, const now_t *now)
 	I a = RefAbs(p, r, now), n = NowOf(RefClock(p, r), now);
 	return a <= n ? 0 : a - n;
 }
+static int RefDeadlineOK(const par_t *p, I t, I r, const now_t *now)
+{
+	if (t == p->FOREVER) return r == p->FOREVER;
+	if (RefOutOfRange(p, t)) return 1;
+	if (RefElapsed(p, t, now)) return r <= now->wall;
+	return r - now->wall == RefWait(p, t, now);
+}
+static int ClassEpoch(const par_t *p, I t) { return (t >= p->H && t < p->H + p->Q) ? 6 : 0; }
 static int ClassTime(const par_t *p, I base, I delta, const now_t *now)
 {
 	if (base == p->FOREVER || RefOutOfRange(p, base)) return 0;
@@ -248,7 +281,8 @@ static void pr128(FILE *f, I v)
 }
 
 typedef struct {
-	int fn;            /* 0 dispatch_time 1 dispatch_walltime(&ts) 2 dispatch_walltime(NULL) 3 _dispatch_timeout */
+	int fn;            /* 0 dispatch_time 1 dispatch_walltime(&ts) 2 dispatch_walltime(NULL) 3 _dispatch_timeout
+	                    * 4 _dispatch_time_nanoseconds_since_epoch */
 	uint64_t base; int64_t delta, sec, nsec; now_t now;
 } vec_t;
 
@@ -260,11 +294,12 @@ static rec_t g_known[NCLASS][NKS]; static unsigned long g_nknown[NCLASS];
 static rec_t g_drift[6]; static unsigned long g_ndrift;
 static rec_t g_samples[8]; static int g_nsamples;
 static unsigned long g_nvec, g_ncalls, g_kind[3], g_eq_pinned_only, g_eq_fixed_only, g_timeouts;
-static unsigned long g_mono_pairs, g_fnc[4];
+static unsigned long g_mono_pairs, g_fnc[5], g_epochs;
 
 static void put_rec(FILE *f, const rec_t *r)
 {
-	static const char *FN[] = { "dispatch_time", "dispatch_walltime", "dispatch_walltime_null", "_dispatch_timeout" };
+	static const char *FN[] = { "dispatch_time", "dispatch_walltime", "dispatch_walltime_null", "_dispatch_timeout",
+		"_dispatch_time_nanoseconds_since_epoch" };
 	static const char *KN[] = { "exact", "forever", "elapsed" };
 	static const char *CN[] = { "uptime", "monotonic", "wall" };
 	fprintf(f, "{\"fn\":\"%s\",\"base\":\"0x%016" PRIx64 "\",\"delta\":%" PRId64 ",\"tv_sec\":%" PRId64
@@ -369,6 +404,48 @@ static void judge_timeout(const vec_t *v)
 	}
 }
 
+/* (L4'') the absolute wall-clock deadline of a wait until `base` (RefDeadlineOK of Time.tla).
+ * ref.t carries the expected deadline: now.wall + reference wait (EXACT), ~0 (FOREVER). */
+static void judge_epoch(const vec_t *v)
+{
+	const par_t *p = &P64; I base = (I)v->base;
+	uint64_t r = real_epoch(v->base, &v->now);
+	g_ncalls++; g_epochs++; g_fnc[4]++;
+	I pinned = NanosSinceEpochF(p, 0, base, &v->now), fixed = NanosSinceEpochF(p, FX_ALL, base, &v->now);
+	int cls = ClassEpoch(p, base);
+	ref_t ref = { EXACT, RefClock(p, base), 0 };
+	if (base == p->FOREVER || RefOutOfRange(p, base)) { ref.kind = FOREVER_K; ref.t = p->FOREVER; }
+	else if (RefElapsed(p, base, &v->now)) ref.kind = ELAPSED;
+	else ref.t = v->now.wall + RefWait(p, base, &v->now);
+	if ((I)r == pinned && (I)r != fixed) g_eq_pinned_only++;
+	if ((I)r == fixed && (I)r != pinned) g_eq_fixed_only++;
+	if (!RefDeadlineOK(p, base, (I)r, &v->now)) {
+		if (cls && (I)r == pinned) {
+			if (g_nknown[cls] < NKS) {
+				rec_t *k = &g_known[cls][g_nknown[cls]];
+				k->v = *v; k->got = r; k->ref = ref; k->cls = cls; k->pinned = (uint64_t)pinned;
+				snprintf(k->what, sizeof k->what, "known deviation");
+			}
+			g_nknown[cls]++;
+			return;
+		}
+		violation(v, r, &ref, cls, (uint64_t)pinned,
+			ref.kind == ELAPSED ? "a time already past on its own clock gets a deadline after the wall clock's now" :
+			ref.kind == FOREVER_K ? "the deadline of DISPATCH_TIME_FOREVER is not DISPATCH_TIME_FOREVER" :
+			"deadline - now.wall is not the time remaining on the time's own clock");
+		return;
+	}
+	if ((I)r != pinned && (I)r != fixed) {
+		if (g_ndrift < 6) { rec_t *k = &g_drift[g_ndrift]; k->v = *v; k->got = r; k->ref = ref; k->cls = cls; k->pinned = (uint64_t)pinned;
+			snprintf(k->what, sizeof k->what, "meets the reference, differs from both transcriptions"); }
+		g_ndrift++;
+	}
+	if (g_nsamples < 8 && (g_epochs % 97) == 1) {
+		rec_t *k = &g_samples[g_nsamples++]; k->v = *v; k->got = r; k->ref = ref; k->cls = cls; k->pinned = (uint64_t)pinned;
+		snprintf(k->what, sizeof k->what, "ok");
+	}
+}
+
 /* (L2) a larger delta never yields an earlier time, never another clock */
 static void judge_pair(const vec_t *a, int64_t delta2)
 {
@@ -387,6 +464,7 @@ static void judge_pair(const vec_t *a, int64_t delta2)
 static void judge_vec(const vec_t *v)
 {
 	if (v->fn == 3) { g_nvec++; judge_timeout(v); return; }
+	if (v->fn == 4) { g_nvec++; judge_epoch(v); return; }
 	if (v->delta < INT64_MAX) judge_pair(v, v->delta + 1);
 	else { uint64_t r; g_nvec++; judge_call(v, &r, NULL); }
 }
@@ -401,6 +479,14 @@ static int selftest(void)
 	uint64_t c = real_time(DISPATCH_WALLTIME_NOW, 5, &n);
 	uint64_t d = real_walltime(0, 0, 0, 7, &n);
 	uint64_t e = real_timeout(1111111111111ull + 40, &n);
+	/* _dispatch_time_nanoseconds_since_epoch: only that it reads the interposed clocks is required
+	 * here (its value is judged against the spec, never by the selftest) */
+	unsigned long c1 = g_clock_calls;
+	uint64_t f = real_epoch(1111111111111ull + 40, &n);
+	if (g_clock_calls == c1 && f != 1790000000123456789ull + 40) {
+		fprintf(stderr, "drv_time: _dispatch_time_nanoseconds_since_epoch does not read the interposed clocks: %" PRIu64 "\n", f);
+		return 3;
+	}
 	if (a != 1111111111116ull || b != ((1ull << 63) | 2222222222227ull) || c != (uint64_t)-1790000000123456794ll ||
 		d != (uint64_t)-1790000000123456796ll || e != 40 || g_clock_calls - c0 < 5) {
 		fprintf(stderr, "drv_time: clock_gettime interposition is not effective: %" PRIu64 " %" PRIx64 " %" PRIx64 " %" PRIx64
@@ -446,9 +532,14 @@ static int mode_table(int W, long nps, int nfiles, char **files)
 				pinned = DispatchWalltimeF(&p, 0, fn == 1, x[3], x[4], x[2], &now);
 				fixed = DispatchWalltimeF(&p, FX_ALL, fn == 1, x[3], x[4], x[2], &now);
 				dev = !RefOK(&p, &r, pinned, &now);
-			} else {
+			} else if (fn == 3) {
 				kind = RefElapsed(&p, x[1], &now); clock = RefClock(&p, x[1]); t = RefWait(&p, x[1], &now); cls = 0;
 				pinned = fixed = TimeoutM(&p, x[1], &now);
+			} else {
+				kind = RefElapsed(&p, x[1], &now); clock = RefClock(&p, x[1]); t = RefWait(&p, x[1], &now);
+				cls = ClassEpoch(&p, x[1]);
+				pinned = NanosSinceEpochF(&p, 0, x[1], &now); fixed = NanosSinceEpochF(&p, FX_ALL, x[1], &now);
+				dev = !RefDeadlineOK(&p, x[1], pinned, &now);
 			}
 			rows++;
 			if (kind != x[8] || clock != x[9] || t != x[10] || cls != x[11] || pinned != x[12] || fixed != x[13] || dev != x[14]) {
@@ -484,7 +575,8 @@ static int mode_vectors(const char *path)
 			/* the expectation the vector carries (from TLC / Apalache) must be what the
 			 * W=64 oracle computes: two independent routes from the spec to the value */
 			I kind, clock, t, cls;
-			if (v.fn == 3) { kind = RefElapsed(&P64, x[1], &v.now); clock = RefClock(&P64, x[1]); t = RefWait(&P64, x[1], &v.now); cls = 0; }
+			if (v.fn == 3 || v.fn == 4) { kind = RefElapsed(&P64, x[1], &v.now); clock = RefClock(&P64, x[1]); t = RefWait(&P64, x[1], &v.now);
+				cls = v.fn == 4 ? ClassEpoch(&P64, x[1]) : 0; }
 			else {
 				ref_t r = v.fn == 0 ? RefTime(&P64, x[1], x[2], &v.now) : RefWalltime(&P64, v.fn == 1, x[3], x[4], x[2], &v.now);
 				kind = r.kind; clock = r.clock; t = r.t;
@@ -580,7 +672,7 @@ static void mode_random(uint64_t seed, unsigned long n)
 	const par_t *p = &P64; g_rng = seed * 0x2545f4914f6cdd1dull + 0x1234567;
 	for (unsigned long i = 0; i < n; i++) {
 		vec_t v; memset(&v, 0, sizeof v); gen_now(&v.now);
-		unsigned k = (unsigned)rnd_below(20);
+		unsigned k = (unsigned)rnd_below(22);
 		if (k < 9) {                                   /* dispatch_time */
 			v.fn = 0; v.base = gen_word();
 			I a = ((I)v.base == p->FOREVER || RefOutOfRange(p, v.base)) ? 0 : RefAbs(p, v.base, &v.now);
@@ -609,8 +701,8 @@ static void mode_random(uint64_t seed, unsigned long n)
 			if (rnd_below(6) == 0) v.delta = gen_delta(0);
 		} else if (k < 18) {                           /* dispatch_walltime(NULL) */
 			v.fn = 2; v.delta = gen_delta(v.now.wall);
-		} else {                                       /* _dispatch_timeout */
-			v.fn = 3; v.base = gen_word();
+		} else {                                       /* _dispatch_timeout / ..._since_epoch */
+			v.fn = k < 20 ? 3 : 4; v.base = gen_word();
 			if (rnd_below(3) == 0) {                     /* around now on a random clock */
 				int c = (int)rnd_below(3); I a = NowOf(c, &v.now) + small_off();
 				if (a >= MinRep(c) && a <= p->MAXV) v.base = (uint64_t)RefEnc(p, c, a);
@@ -623,9 +715,9 @@ static void mode_random(uint64_t seed, unsigned long n)
 static void print_summary(const char *mode, unsigned long carried)
 {
 	printf("{\"mode\":\"%s\",\"vectors\":%lu,\"calls\":%lu,\"carried_expectations\":%lu,\"timeout_calls\":%lu,\"monotone_pairs\":%lu,"
-		"\"by_fn\":[%lu,%lu,%lu,%lu],\"by_kind\":{\"exact\":%lu,\"forever\":%lu,\"elapsed\":%lu},"
+		"\"by_fn\":[%lu,%lu,%lu,%lu,%lu],\"by_kind\":{\"exact\":%lu,\"forever\":%lu,\"elapsed\":%lu},"
 		"\"eq_pinned_only\":%lu,\"eq_fixed_only\":%lu,\"clock_gettime_calls\":%lu,\"nviol\":%lu,\"ndrift\":%lu,\"known\":{",
-		mode, g_nvec, g_ncalls, carried, g_timeouts, g_mono_pairs, g_fnc[0], g_fnc[1], g_fnc[2], g_fnc[3],
+		mode, g_nvec, g_ncalls, carried, g_timeouts, g_mono_pairs, g_fnc[0], g_fnc[1], g_fnc[2], g_fnc[3], g_fnc[4],
 		g_kind[0], g_kind[1], g_kind[2], g_eq_pinned_only, g_eq_fixed_only, g_clock_calls, g_nviol, g_ndrift);
 	int first = 1;
 	for (int c = 1; c < NCLASS; c++) {
@@ -643,15 +735,127 @@ static void print_summary(const char *mode, unsigned long carried)
 	printf("]}\n");
 }
 
+/* ----------------------------------------------------------------------- semwait */
+/* End to end, real clocks (g_fake = 0): dispatch_semaphore_wait(sema, t) on a semaphore that is
+ * never signalled.  Each case runs in its own thread on its own semaphore, all concurrently;
+ * the main thread gives them SEMWAIT_BOUND_S seconds.  Requirements (the law RefDeadlineOK of
+ * Time.tla seen through the primitive):
+ *   - the wait returns (within the bound) -- "still blocked" is the violation of "waiting until
+ *     a time that is already past does not block" (and of the 50 ms timeout);
+ *   - it returns non-zero (timed out; nobody signals);
+ *   - when it returns, t has elapsed on its OWN clock (RefElapsed with the clocks read after the
+ *     return; SEMWAIT_SLACK_NS tolerated: the deadline is handed to sem_timedwait on
+ *     CLOCK_REALTIME, which may be slewed against the other clocks).
+ * For a case that is still blocked the driver also says whether the transcription of the PINNED
+ * conversion (NanosSinceEpochF without epoch_clock) predicts it: input class epoch_mono and a
+ * predicted deadline later than the bound. */
+#define SEMWAIT_BOUND_S 5
+#define SEMWAIT_SLACK_NS 10000000ll
+#define SEMWAIT_AHEAD_NS 50000000ll
+
+typedef struct {
+	const char *name, *expr; int clock; int64_t delta;
+	dispatch_time_t t; now_t before, after; intptr_t ret;
+	dispatch_semaphore_t sema; pthread_t th;
+	volatile int done;
+} swcase_t;
+
+static void read_now(now_t *n)
+{
+	struct timespec ts;
+	syscall(SYS_clock_gettime, CLOCK_MONOTONIC, &ts); n->up = (I)ts.tv_sec * 1000000000 + ts.tv_nsec;
+	syscall(SYS_clock_gettime, CLOCK_BOOTTIME, &ts); n->mono = (I)ts.tv_sec * 1000000000 + ts.tv_nsec;
+	syscall(SYS_clock_gettime, CLOCK_REALTIME, &ts); n->wall = (I)ts.tv_sec * 1000000000 + ts.tv_nsec;
+}
+
+static void *semwait_thread(void *arg)
+{
+	swcase_t *c = arg;
+	c->ret = dispatch_semaphore_wait(c->sema, c->t);
+	read_now(&c->after);
+	__atomic_store_n(&c->done, 1, __ATOMIC_RELEASE);
+	return NULL;
+}
+
+static int mode_semwait(void)
+{
+	static swcase_t cs[] = {
+		{ "uptime_past", "dispatch_time(DISPATCH_TIME_NOW, -1s)", UP, -1000000000ll },
+		{ "uptime_50ms", "dispatch_time(DISPATCH_TIME_NOW, 50ms)", UP, SEMWAIT_AHEAD_NS },
+		{ "wall_past", "dispatch_walltime(NULL, -1s)", WALL, -1000000000ll },
+		{ "wall_50ms", "dispatch_walltime(NULL, 50ms)", WALL, SEMWAIT_AHEAD_NS },
+		{ "wallnow_past", "dispatch_time(DISPATCH_WALLTIME_NOW, -1s)", WALL, -1000000000ll },
+		{ "wallnow_50ms", "dispatch_time(DISPATCH_WALLTIME_NOW, 50ms)", WALL, SEMWAIT_AHEAD_NS },
+		{ "monotonic_past", "dispatch_time(DISPATCH_MONOTONICTIME_NOW, -1s)", MONO, -1000000000ll },
+		{ "monotonic_50ms", "dispatch_time(DISPATCH_MONOTONICTIME_NOW, 50ms)", MONO, SEMWAIT_AHEAD_NS },
+	};
+	const int n = (int)(sizeof cs / sizeof cs[0]); const par_t *p = &P64;
+	g_fake = 0;
+	for (int i = 0; i < n; i++) {
+		swcase_t *c = &cs[i];
+		c->sema = dispatch_semaphore_create(0);
+		if (!c->sema) { fprintf(stderr, "drv_time: dispatch_semaphore_create failed\n"); return 3; }
+	}
+	for (int i = 0; i < n; i++) {
+		swcase_t *c = &cs[i];
+		read_now(&c->before);
+		if (c->clock == UP) c->t = dispatch_time(DISPATCH_TIME_NOW, c->delta);
+		else if (c->clock == MONO) c->t = dispatch_time(DISPATCH_MONOTONICTIME_NOW, c->delta);
+		else if (!strncmp(c->name, "wallnow", 7)) c->t = dispatch_time(DISPATCH_WALLTIME_NOW, c->delta);
+		else c->t = dispatch_walltime(NULL, c->delta);
+		if (RefClock(p, (I)c->t) != c->clock || c->t == DISPATCH_TIME_FOREVER) {
+			fprintf(stderr, "drv_time: semwait %s: constructor returned 0x%" PRIx64 ", not a time on the intended clock\n", c->name, (uint64_t)c->t);
+			return 3;
+		}
+		if (pthread_create(&c->th, NULL, semwait_thread, c)) { fprintf(stderr, "drv_time: pthread_create failed\n"); return 3; }
+	}
+	now_t start, cur; read_now(&start);
+	for (;;) {
+		int alldone = 1;
+		for (int i = 0; i < n; i++) if (!__atomic_load_n(&cs[i].done, __ATOMIC_ACQUIRE)) alldone = 0;
+		read_now(&cur);
+		if (alldone || cur.up - start.up > (I)SEMWAIT_BOUND_S * 1000000000) break;
+		struct timespec ts = { 0, 5000000 }; nanosleep(&ts, NULL);
+	}
+	int nviol = 0;
+	printf("{\"mode\":\"semwait\",\"bound_s\":%d,\"cases\":[", SEMWAIT_BOUND_S);
+	for (int i = 0; i < n; i++) {
+		swcase_t *c = &cs[i]; const char *verdict = "ok"; int predicted = 0;
+		int done = __atomic_load_n(&c->done, __ATOMIC_ACQUIRE);
+		I pinned = NanosSinceEpochF(p, 0, (I)c->t, &c->before), fixed = NanosSinceEpochF(p, FX_ALL, (I)c->t, &c->before);
+		if (!done) {
+			verdict = "blocked";
+			predicted = ClassEpoch(p, (I)c->t) != 0 && pinned - c->before.wall > (I)SEMWAIT_BOUND_S * 1000000000;
+		} else if (c->ret == 0) verdict = "returned_zero";
+		else {
+			now_t late = c->after; late.up += SEMWAIT_SLACK_NS; late.mono += SEMWAIT_SLACK_NS; late.wall += SEMWAIT_SLACK_NS;
+			if (!RefElapsed(p, (I)c->t, &late)) verdict = "returned_early";
+		}
+		if (strcmp(verdict, "ok")) nviol++;
+		I took = done ? NowOf(c->clock, &c->after) - NowOf(c->clock, &c->before) : -1;
+		printf("%s{\"case\":\"%s\",\"call\":\"dispatch_semaphore_wait(sema, %s)\",\"clock\":%d,\"t\":\"0x%016" PRIx64 "\","
+			"\"verdict\":\"%s\",\"ret\":%ld,\"took_ns\":%" PRId64 ",\"class\":\"%s\",\"predicted_by_pinned_model\":%s,"
+			"\"pinned_model_deadline_minus_wall_now_ns\":\"", i ? "," : "", c->name, c->expr, c->clock, (uint64_t)c->t,
+			verdict, done ? (long)c->ret : -1l, (int64_t)took, CLASS_NAMES[ClassEpoch(p, (I)c->t)], predicted ? "true" : "false");
+		pr128(stdout, pinned - c->before.wall);
+		printf("\",\"repaired_model_deadline_minus_wall_now_ns\":\""); pr128(stdout, fixed - c->before.wall);
+		printf("\"}");
+	}
+	printf("],\"nviol\":%d}\n", nviol);
+	fflush(stdout);
+	_exit(nviol ? 2 : 0);      /* blocked threads never return */
+}
+
 int main(int argc, char **argv)
 {
 	P64 = mkpar(64, 1000000000);
-	if (argc < 2) { fprintf(stderr, "usage: drv_time selftest | table W NPS file... | vectors file | random seed n\n"); return 3; }
+	if (argc < 2) { fprintf(stderr, "usage: drv_time selftest | table W NPS file... | vectors file | random seed n | semwait\n"); return 3; }
 	int rc = selftest();
 	if (rc) return rc;
 	if (!strcmp(argv[1], "selftest")) { printf("{\"mode\":\"selftest\",\"ok\":true}\n"); return 0; }
 	if (!strcmp(argv[1], "table") && argc >= 5) return mode_table(atoi(argv[2]), atol(argv[3]), argc - 4, argv + 4);
 	if (!strcmp(argv[1], "vectors") && argc == 3) return mode_vectors(argv[2]);
+	if (!strcmp(argv[1], "semwait")) return mode_semwait();
 	if (!strcmp(argv[1], "random") && argc == 4) {
 		mode_random(strtoull(argv[2], NULL, 10), strtoul(argv[3], NULL, 10));
 		print_summary("random", 0);
